@@ -21,7 +21,8 @@ RULE = ('simulated libraries with known truth: 1-8 cells, 1-40 sites on both str
         '1-5 PCR copies with varying far ends, soft clips, mismatches; NLA and CHIC (trimmed / untrimmed), hamming 0/1/2, CHIC radius 0/5, '
         'pooling 0/1, max_associated_fragments cap; API runs (MoleculeIterator + write_tags) and the single-process command line; histories: '
         'input with random duplicate bits and stale RC/af/TF tags, and re-tagging the tagged output. Non-trivial = library with at least one '
-        'true molecule of >=2 fragments and at least two molecules at one site; distinct = distinct (library seed, configuration).')
+        'true molecule of >=2 fragments and at least two molecules at one site; distinct = distinct (library seed, configuration).'
+        ' Plus ejection intervals 0..25 on API and command line, molecules of >255 fragments, and: with exact UMIs the copies of one true molecule are never spread over two molecules (any radius).')
 ASSUMPTIONS = ['the simulator is the truth (cell, site, strand, UMI by construction)',
                'for hamming>0 / radius>0 only soundness is demanded (chain linkage), for hamming 0 and radius 0 exact equality of the partition']
 MIN_NONTRIVIAL = {'quick': 60, 'thorough': 2000}
